@@ -327,7 +327,7 @@ def run(ctx):
             run_cell(ctx, cell, sdir)
             if i % 200 == 0:
                 rec.sample(list(cell))
-    ndocs = ctx.pick(0, 300)
+    ndocs = ctx.pick(24, 300)
     for j in range(ndocs):
         if not ctx.mine(j):
             continue
